@@ -7,6 +7,7 @@ import (
 	"net"
 	"sort"
 	"strings"
+	"time"
 
 	"google.golang.org/grpc/metadata"
 	"google.golang.org/grpc/peer"
@@ -125,6 +126,11 @@ func (s *fstream) Recv() (*pb.SubscribeRequest, error) {
 	}
 }
 func (s *fstream) Send(r *pb.SubscribeResponse) error {
+	if s.spec.stall == "slow" {
+		// every send of this subscriber takes 25 s of virtual time: slow, but
+		// well inside the server's one-minute send time-out
+		vrt.Elapse(25 * time.Second)
+	}
 	if s.gate != nil {
 		s.inSend = true
 		s.gate.Wait()
@@ -155,7 +161,7 @@ func newStream(sp subSpec) *fstream {
 	}
 	st := &fstream{spec: sp, ctx: ctx, cancel: cancel, pollC: make(chan struct{}, 4),
 		req: &pb.SubscribeRequest{Request: &pb.SubscribeRequest_Subscribe{Subscribe: sl}}}
-	if sp.stall != "" {
+	if sp.stall != "" && sp.stall != "slow" {
 		st.gate = &vrt.Gate{}
 	}
 	return st
